@@ -6,6 +6,10 @@ CHECKS = {
     'C06': {'text': 'Every path of the real containsSplit (and, as they are added, the real decoders) over all byte strings of the stated lengths is executed symbolically; each memory access, abort, throw is an obligation decided by z3; exhaustive inside the bound, silent outside.',
             'note': 'Bounded: tx length <= 6 (quick) / 7 (thorough). Trusts: own interpreter (validated each run by native replay of sampled path models under ASan), libmodel stubs, clang -O1 lowering.'},
 }
+CHECKS['C11'] = {'text': 'Serde primitives for ALL int64/int32/int16 values (one symbolic input), length-prefixed values for every payload length and [min,max] window inside the bound, and every entity decoder/encoder/estimateSize on every byte string up to the stated length: each obligation decided by z3 on every path.',
+                 'note': 'Bounded byte strings (6-9 bytes; fixed-size headers at full length). Hashes/ids and composite payloads (ATV/VTB/PopData) outside. Trusts own interpreter (validated by native replay), libmodel, clang -O1.'}
+CHECKS['C13'] = {'text': 'The real ValueSortedMap (the mempool in-flight container) is executed over every sequence of 3 (quick) / 4 (thorough) operations with symbolic keys and tie-ranked values; view agreement, ordering and memory safety are decided on every path.',
+                 'note': 'Only the container is decided; MemPool maps/relations/cleanUp are outside the claim. Trusts own interpreter, libmodel rb-tree/hashtable stubs (validated natively each run).'}
 _TODO = 'check not built yet in this session (breadth-first build in progress); see DESIGN.md section 4 for the planned encoding'
 NOT_APPLICABLE = {p: _TODO for p in ['C%02d' % i for i in range(1, 21)] if p not in CHECKS}
 for _e in ENGINES:
